@@ -117,6 +117,25 @@ Example C03_former_witness_proposal_withdraw_rejected :
   debited (default [] (tx_ops (effect_proposal_withdraw true 0 1 2 7 5) 1 9 1)) = [1%N; 1%N].
 Proof. vm_compute. auto. Qed.
 
+(* bid app: the bidder's holdings (balance + escrow) are unchanged by locking / unlocking his bid - also by the PUBLIC, unguarded
+   BID_EXPIRE that anybody may send - and decrease only by the owner's accept of the bid he signed or by his own accept of a counter offer *)
+Theorem C03_bid_unlock_neutral : forall (l : gmap key Z) (bidder conv payer fp : N) (fee : Z), 0 <= fee -> nonneg l ->
+  no_creation (unlock_ops l bidder conv ++ fee_ops payer fp fee) /\ credits_ok (unlock_ops l bidder conv ++ fee_ops payer fp fee) /\
+  takes_only_from (unlock_ops l bidder conv ++ fee_ops payer fp fee) [bidder; payer] /\
+  forall a c, a <> payer -> holdings a c (run_tx l (unlock_ops l bidder conv)) = holdings a c l.
+Proof. exact bid_unlock_stmt. Qed.
+Print Assumptions C03_bid_unlock_neutral.
+Theorem C03_bid_create_authority : forall known cur bidder conv v hc c payer fp fee ops, 0 <= fee ->
+  effect_bid_create known cur bidder conv v hc c = Some ops ->
+  no_creation (ops ++ fee_ops payer fp fee) /\ credits_ok (ops ++ fee_ops payer fp fee) /\ takes_only_from (ops ++ fee_ops payer fp fee) [bidder; payer].
+Proof. exact bid_create_stmt. Qed.
+Print Assumptions C03_bid_create_authority.
+Theorem C03_bid_owner_accept_takes_the_escrow_only : forall (l : gmap key Z) (bidder owner conv payer fp : N) (fee : Z) ops, 0 <= fee -> nonneg l ->
+  effect_bid_owner_accept l bidder owner conv = Some ops ->
+  no_creation (ops ++ fee_ops payer fp fee) /\ credits_ok (ops ++ fee_ops payer fp fee) /\ takes_only_from (ops ++ fee_ops payer fp fee) [bidder; payer].
+Proof. exact bid_owner_accept_stmt. Qed.
+Print Assumptions C03_bid_owner_accept_takes_the_escrow_only.
+
 (* an account outside [who] keeps its holdings *)
 Theorem C03_others_keep_holdings : forall a c l ops who, takes_only_from ops who -> ~ In a who -> holdings a c l <= holdings a c (run_tx l ops).
 Proof. exact takes_only_holdings. Qed.
